@@ -221,6 +221,15 @@ func (g *Gen) WellFormedFlow(pid int) *ps.Program {
 	}
 	g.R.Shuffle(len(p.Results), func(i, j int) { p.Results[i], p.Results[j] = p.Results[j], p.Results[i] })
 
+	if !g.plain && g.flowCount%8 == 5 {
+		n := 0
+		for _, t := range p.Tasks {
+			if !t.Pred && n < 2 {
+				t.Pred, t.PCtx, t.PIns = true, false, nil
+				n++
+			}
+		}
+	}
 	g.flowOpts(p)
 	g.forms(p)
 	g.order(p)
@@ -384,6 +393,11 @@ func (g *Gen) forms(p *ps.Program) {
 				t.PForm = "named"
 			} else {
 				t.PForm = "lit"
+			}
+			if len(t.PIns) == 0 && !t.PCtx && g.chance(60) {
+				// a method value: predicates of different tasks are then the same method of
+				// different receiver values
+				t.PForm = "meth"
 			}
 		}
 	}
